@@ -110,11 +110,6 @@ theorem specStep_setVal_aw (A A' : AState) (chs : List (Option CHE)) (lhs : List
 
 /-! ### the world along the translated trace -/
 
-def lastPath : Option SOp → Option Path
-  | some (.mkLoop p _) => some p
-  | some (.addPkt p _) => some p
-  | _ => none
-
 /-- the calls the composition theorem covers, given the call made just before: no save frames; a packet goes to the loop that the
     call just before created or filled (parse_loop: cif_container_create_loop, then the packets, nothing in between) -/
 def covered (last : Option SOp) : SOp → Bool
